@@ -58,27 +58,33 @@ def collect(wt, pid, slug, demo, needs):
 
 
 def detect(name, tier="quick", checks=None):
+    """runs the checks against a scratch worktree of /repo with the patch applied (VERIF_REPO), so /repo itself is
+    never touched; the worktree is removed afterwards"""
     d = os.path.join(SEEDED, name)
     meta = json.load(open(os.path.join(d, "meta.json")))
     checks = checks or [meta["property"]]
-    rc, out = sh("git -C /repo status --porcelain")
-    if out.strip():
-        print("refusing: /repo is not clean:\n" + out)
-        return 2
-    rc, out = sh("git -C /repo apply %s" % os.path.join(d, "patch.diff"))
+    wt = "/tmp/repo-detect-%d" % os.getpid()
+    sh("git -C /repo worktree remove --force %s" % wt)
+    rc, out = sh("git -C /repo worktree add --detach %s HEAD" % wt)
     if rc != 0:
-        print("patch does not apply:\n" + out)
+        print("cannot create scratch worktree:\n" + out)
         return 2
     try:
+        rc, out = sh("git apply %s" % os.path.join(d, "patch.diff"), cwd=wt)
+        if rc != 0:
+            print("patch does not apply:\n" + out)
+            return 2
+        env = dict(ENV, VERIF_REPO=wt)
         for c in checks:
             t0 = time.time()
-            rc, out = sh("./check %s %s" % (c, tier), cwd=VERIF, timeout=7200)
-            viol = [l[:400] for l in out.split("\n") if l.startswith("VIOLATION")]
-            meta["detection"]["%s/%s" % (c, tier)] = {"rc": rc, "violations": viol, "wall_s": round(time.time() - t0, 1)}
-            print(c, tier, "rc=%d" % rc, *viol[:3], sep="\n  ")
+            p = subprocess.run("./check %s %s" % (c, tier), shell=True, cwd=VERIF, env=env, stdout=subprocess.PIPE,
+                               stderr=subprocess.STDOUT, text=True, timeout=7200)
+            viol = [l[:400] for l in p.stdout.split("\n") if l.startswith("VIOLATION")]
+            meta["detection"]["%s/%s" % (c, tier)] = {"rc": p.returncode, "violations": viol, "wall_s": round(time.time() - t0, 1)}
+            print(c, tier, "rc=%d" % p.returncode, *viol[:3], sep="\n  ")
     finally:
-        sh("git -C /repo checkout -- .")
-        sh("git -C /repo clean -fdq -- . ':!seeddemo'")
+        sh("git -C /repo worktree remove --force %s" % wt)
+        sh("git -C /repo worktree prune")
     json.dump(meta, open(os.path.join(d, "meta.json"), "w"), indent=1)
     return 0
 
